@@ -51,7 +51,11 @@ func (b *Buffer) Bytes() []byte { panic(0) }
 func (b *Buffer) Grow(n int) { panic(0) }
 func (b *Buffer) Write(p []byte) (n int, err error) { panic(0) }
 func (b *Buffer) WriteByte(c byte) error { panic(0) }
-func (b *Buffer) Read(p []byte) (n int, err error) { panic(0) }`,
+func (b *Buffer) Read(p []byte) (n int, err error) { panic(0) }
+type Reader struct{ opaque int }
+func NewReader(b []byte) *Reader { panic(0) }
+func (r *Reader) Len() int { panic(0) }
+func (r *Reader) Read(p []byte) (n int, err error) { panic(0) }`,
 	"encoding/hex": `package hex
 func DecodeString(s string) ([]byte, error) { panic(0) }
 func EncodeToString(src []byte) string { panic(0) }`,
@@ -120,7 +124,15 @@ func (m *RWMutex) RUnlock() { panic(0) }`,
 	"math": `package math
 const Ln2 = 0.693147180559945309417232121458176568
 const MaxUint32 = 1<<32 - 1
-func Log(x float64) float64 { panic(0) }`,
+func Log(x float64) float64 { panic(0) }
+func Round(x float64) float64 { panic(0) }
+func IsNaN(f float64) bool { panic(0) }
+func IsInf(f float64, sign int) bool { panic(0) }
+func Pow10(n int) float64 { panic(0) }`,
+	"strconv": `package strconv
+func FormatInt(i int64, base int) string { panic(0) }
+func FormatFloat(f float64, fmt byte, prec, bitSize int) string { panic(0) }
+func Itoa(i int) string { panic(0) }`,
 	"container/list": `package list
 type Element struct { Value interface{} }
 func (e *Element) Next() *Element { panic(0) }
@@ -151,6 +163,8 @@ func (h *Hash) IsEqual(target *Hash) bool { panic(0) }
 func (h *Hash) SetBytes(newHash []byte) error { panic(0) }
 func (h *Hash) CloneBytes() []byte { panic(0) }
 func NewHash(newHash []byte) (*Hash, error) { panic(0) }
+func NewHashFromStr(hash string) (*Hash, error) { panic(0) }
+func (h Hash) String() string { panic(0) }
 func DoubleHashB(b []byte) []byte { panic(0) }
 func DoubleHashH(b []byte) Hash { panic(0) }
 func HashB(b []byte) []byte { panic(0) }`,
@@ -189,7 +203,7 @@ func (p *PublicKey) SerializeCompressed() []byte { panic(0) }
 func (p *PublicKey) SerializeUncompressed() []byte { panic(0) }
 func (p *PublicKey) SerializeHybrid() []byte { panic(0) }`,
 	"github.com/gcash/bchd/wire": `package wire
-import ("bytes"; "github.com/gcash/bchd/chaincfg/chainhash")
+import ("bytes"; "io"; "github.com/gcash/bchd/chaincfg/chainhash")
 type BloomUpdateType uint8
 const (
 	BloomUpdateNone BloomUpdateType = 0
@@ -219,7 +233,14 @@ func WriteVarInt(w *bytes.Buffer, pver uint32, val uint64) error { panic(0) }
 func (o *OutPoint) Serialize(w *bytes.Buffer) error { panic(0) }
 func (msg *MsgBlock) BlockHash() chainhash.Hash { panic(0) }
 func NewMsgBlock(blockHeader *BlockHeader) *MsgBlock { panic(0) }
-func VarIntSerializeSize(val uint64) int { panic(0) }`,
+func VarIntSerializeSize(val uint64) int { panic(0) }
+type TxLoc struct { TxStart int; TxLen int }
+func (msg *MsgBlock) Serialize(w *bytes.Buffer) error { panic(0) }
+func (msg *MsgBlock) SerializeSize() int { panic(0) }
+func (msg *MsgBlock) Deserialize(r io.Reader) error { panic(0) }
+func (msg *MsgBlock) DeserializeTxLoc(r *bytes.Buffer) ([]TxLoc, error) { panic(0) }
+func (msg *MsgTx) Deserialize(r io.Reader) error { panic(0) }
+func NewMsgFilterLoad(filter []byte, hashFuncs uint32, tweak uint32, flags BloomUpdateType) *MsgFilterLoad { panic(0) }`,
 	"github.com/gcash/bchd/txscript": `package txscript
 type ScriptClass byte
 const (
@@ -245,7 +266,7 @@ func Decode(b string) []byte { panic(0) }
 func CheckEncode(input []byte, version byte) string { panic(0) }
 func CheckDecode(input string) (result []byte, version byte, err error) { panic(0) }`,
 	"github.com/gcash/bchutil": `package bchutil
-import ("github.com/gcash/bchd/chaincfg/chainhash"; "github.com/gcash/bchd/wire")
+import ("github.com/gcash/bchd/chaincfg"; "github.com/gcash/bchd/chaincfg/chainhash"; "github.com/gcash/bchd/wire")
 type Amount int64
 type Tx struct{ opaque int }
 func (t *Tx) Hash() *chainhash.Hash { panic(0) }
@@ -253,7 +274,9 @@ func (t *Tx) MsgTx() *wire.MsgTx { panic(0) }
 type Block struct{ opaque int }
 func (b *Block) Transactions() []*Tx { panic(0) }
 func (b *Block) MsgBlock() *wire.MsgBlock { panic(0) }
-func Hash160(buf []byte) []byte { panic(0) }`,
+func Hash160(buf []byte) []byte { panic(0) }
+type AddressPubKeyHash struct { hash [20]byte; prefix string }
+func NewAddressPubKeyHash(pkHash []byte, net *chaincfg.Params) (*AddressPubKeyHash, error) { panic(0) }`,
 	"github.com/gcash/bchutil/bloom": `package bloom
 import ("github.com/gcash/bchutil")
 type Filter struct{ opaque int }
@@ -276,6 +299,7 @@ var abstract3 = map[string]bool{
 	"container/list.List":               true,
 	"container/list.Element":            true,
 	"bytes.Buffer":                      true,
+	"bytes.Reader":                      true,
 	"math/big.Int":                      true,
 	"crypto/ecdsa.PublicKey":            true,
 	"crypto/ecdsa.PrivateKey":           true,
@@ -300,18 +324,21 @@ var mutating3 = map[string]bool{
 	"Hash.Write": true,
 	"MsgMerkleBlock.AddTxHash": true,
 	"Int.Add": true, "Int.Mod": true,
+	"MsgBlock.Deserialize": true, "MsgTx.Deserialize": true,
 }
 
 // constructors of imported packages: their pointer result is a fresh object nobody else holds
 var freshFuncs3 = map[string]bool{
 	"github.com/gcash/bchd/wire.NewMsgTx": true, "github.com/gcash/bchd/wire.NewOutPoint": true,
-	"github.com/gcash/bchd/wire.NewMsgBlock": true,
+	"github.com/gcash/bchd/wire.NewMsgBlock": true, "github.com/gcash/bchd/wire.NewMsgFilterLoad": true,
 }
 
 // abstract functions / methods that change the object behind one of their pointer arguments: the new
 // object is returned after the results (and after the receiver)
 var mutArgs3 = map[string][]int{
 	"wire_ReadVarInt": {0}, "wire_WriteVarInt": {0}, "wire_OutPoint_Serialize": {0},
+	"rand_Read": {0},
+	"wire_MsgBlock_Serialize": {0}, "wire_MsgBlock_Deserialize": {0}, "wire_MsgTx_Deserialize": {0},
 }
 
 // ---------------------------------------------------------------------------
